@@ -403,7 +403,44 @@ def gen_cases(ctx: core.Ctx) -> list[dict]:
         rng.shuffle(perm)
         pairs = [(perm[a], perm[b]) for a, b in pairs]
         cases.append(decorate(rng, n, pairs, engine=eng(), tag="+".join(sorted(set(tags))) + ("+iso" if iso else "")))
+        if len(cases) % 5 == 0:
+            cases.append(explicit_threshold_variant(rng, cases[-1]))
     return cases
+
+
+def explicit_threshold_variant(rng, base):
+    """The clustering was made at one threshold t_c (and carries it as metadata); metrics are requested with an EXPLICIT, different
+    threshold t < t_c - including the falsy values 0 and 0.0 - under which the clusters are still the connected components: every
+    edge added below t_c joins two records of one t_c-component."""
+    c = json.loads(json.dumps(base))
+    c["edges"] = [tuple(e) for e in c["edges"]]
+    tc = c["thr"]
+    n = c["n"]
+    par = list(range(n))
+
+    def find(x):
+        while par[x] != x:
+            par[x] = par[par[x]]
+            x = par[x]
+        return x
+
+    for a, b, p in c["edges"]:
+        if p >= tc:
+            par[find(a)] = find(b)
+    have = {frozenset((a, b)) for a, b, _ in c["edges"]}
+    # edges below t_c that join different components would change the components at a lower threshold: lift them out of the graph
+    c["edges"] = [(a, b, p) for a, b, p in c["edges"] if p >= tc or find(a) == find(b)]
+    t = rng.choice([0, 0.0, 0.0, 0.05]) if tc > 0.05 else tc
+    weak = [q for q in (0.05, 0.1, 0.25, 0.5, 0.75) if t <= q < tc]
+    if weak:
+        cand = [(a, b) for a in range(n) for b in range(a + 1, n) if find(a) == find(b) and frozenset((a, b)) not in have]
+        rng.shuffle(cand)
+        for a, b in cand[: rng.randint(1, 6)]:
+            c["edges"].append((a, b, rng.choice(weak)) if rng.random() < 0.5 else (b, a, rng.choice(weak)))
+    c["thr_cluster"], c["thr"] = tc, t
+    c["tag"] = base["tag"] + "+explicit_thr"
+    c["shuffle"] = rng.randrange(1 << 30)
+    return c
 
 
 def gen_excluded(ctx: core.Ctx) -> list[dict]:
